@@ -210,6 +210,15 @@ func (e *hsEP) renderFrame(g groupSpec, b *base, c caseSpec) ([]byte, error) {
 		return append(hdr(tp, uint32(len(body))), body[:len(body)/2]...), nil
 	case "frame-empty-body":
 		return hdr(tp, 0), nil
+	// a well-formed frame of each type, whatever the position expects
+	case "frame-other-cred":
+		return frame(frameCred, getHsWorld().cred), nil
+	case "frame-other-ack-null":
+		return frame(frameAck, getHsWorld().ackOk), nil // 02 00 00 00 00
+	case "frame-other-ack-error":
+		return frame(frameAck, must((&handshakeproto.Ack{Error: handshakeproto.Error_InvalidCredentials}).MarshalVT())), nil
+	case "frame-other-proto":
+		return frame(frameProto, getHsWorld().proto), nil
 	}
 	return nil, fmt.Errorf("unknown frame operator %q", c.Op)
 }
